@@ -5,6 +5,7 @@
 //   - config-entry representation: whole service-intentions entries through
 //     Normalize / Validate / Store.EnsureConfigEntry (what ConfigEntry.Apply does), or one source at a
 //     time through Store.IntentionMutation(IntentionOpUpsert) (what Intention.Apply does).
+//
 // After the writes it records Store.Intentions, Store.IntentionMatch / IntentionMatchOne by source and by
 // destination for every query entry, and Store.IntentionDecision along both routes the servers use
 // (match by source + decide on destination = Intention.Check; match by destination + decide on source =
@@ -79,13 +80,13 @@ type Case struct {
 	Dflt    bool        `json:"dflt"`
 	APerm   bool        `json:"aperm"`
 
-	WRes []int   `json:"wres"`
+	WRes []int    `json:"wres"`
 	WMsg []string `json:"wmsg,omitempty"`
-	All  []Ixn   `json:"all"`
-	MSrc [][]int `json:"msrc"`
-	MDst [][]int `json:"mdst"`
-	R1   []int   `json:"r1"`
-	R2   []int   `json:"r2"`
+	All  []Ixn    `json:"all"`
+	MSrc [][]int  `json:"msrc"`
+	MDst [][]int  `json:"mdst"`
+	R1   []int    `json:"r1"`
+	R2   []int    `json:"r2"`
 
 	Oracle string `json:"oracle"` // "" or the kinds of the direct-oracle failures, comma separated
 	Fails  []Fail `json:"fails,omitempty"`
@@ -717,7 +718,7 @@ func shrinkPair(a, b *Case) *Replay {
 
 type write struct { // one logical intention write
 	Peer, SNS, SName, DNS, DName, Act string
-	NPerm                           int
+	NPerm                             int
 }
 
 type group struct {
